@@ -75,4 +75,10 @@ var propMeta = map[string]*PropMeta{
 		Assumptions: append([]string{"alterations are applied at quiescent points (event layer): no entry is in flight while the definition changes", "a dropped field is never re-added with the same name and expression (the statement does not say whether its old values may come back)"}, commonAssumptions...),
 		Probes: []string{"op.alter", "site.rs.fieldUpdate", "fault.restart.clean"},
 	},
+	"C09": {
+		Level: "exploration", QuickSecs: 35, ThoroughSecs: 600, Recycle: 300,
+		Rule: "one case = one seeded plan: generated dataset and storage split, then 2-6 generated base queries (field subsets, derived fields, WHERE, grouping), each with a generated key list of length 1-4 over fields, dimensions (incl. missing and mixed-type ones) and _time in every position with mixed directions, and LIMIT n in {0,1,2,3,5,8,1000} OFFSET m in {0,1,2,4,50}. The four variants (plain, ORDER BY, ORDER BY+LIMIT/OFFSET, LIMIT/OFFSET only) are planned at one simulated instant. Oracle: ORDER BY result is the same multiset as the plain result; adjacent rows are non-decreasing under the simulator's own typed lexicographic comparator (NULL placement accepted at either end, incomparable types not judged); LIMIT/OFFSET returns min(n, max(0, rows-m)) rows, all from the plain result, whose sort-key tuples equal positions m..m+n-1 of the ordered result. Non-trivial = a base query with more than one row was checked.",
+		Real:  realS, Stub: stubS, Assumptions: commonAssumptions,
+		Probes: []string{"q.error"},
+	},
 }
